@@ -96,9 +96,17 @@ def _bounded(lo, hi, mk):
             f[lk] = mk(a)
         if use & 2:
             f[hk] = mk(b)
+        # an inclusive AND an exclusive bound on the same side (a type customized twice):
+        # both hold; the second one is looser or tighter by 2, kept inside [lo, hi] and
+        # away from the other side so that the value space stays non-empty
+        if use & 4 and use & 1 and b - a >= 6:
+            f["gt" if lk == "ge" else "ge"] = mk(min(max(a + (2 if use & 16 else -2), lo), hi))
+        if use & 8 and use & 2 and b - a >= 6:
+            f["lt" if hk == "le" else "le"] = mk(min(max(b + (-2 if use & 16 else 2), lo), hi))
         return f
     return st.tuples(st.integers(lo, hi), st.integers(lo, hi), st.sampled_from(["ge", "gt"]),
-                     st.sampled_from(["le", "lt"]), st.integers(0, 3)).map(build)
+                     st.sampled_from(["le", "lt"]),
+                     st.sampled_from([0, 1, 2, 3, 3, 3, 7, 11, 15, 23, 27, 31])).map(build)
 
 
 @st.composite
@@ -333,6 +341,11 @@ def logical_requests(ts, draw):
                 lrs.append({"kind": "count", "vs": [good[i % len(good)] for i in range(n)]})
             if bad:
                 lrs.append({"kind": "count", "vs": [good[0], bad[0]][:max(2, ts["occ"]["min"])]})
+                # the offending occurrence first / in the middle (every occurrence is checked,
+                # not just the last one)
+                lrs.append({"kind": "count", "vs": [bad[0], good[0]]})
+                if top >= 3:
+                    lrs.append({"kind": "count", "vs": [good[0], bad[-1], good[-1]]})
     return lrs
 
 
